@@ -929,7 +929,7 @@ def unjudged(ctx, fn, *args, **kwargs):
     try:
         with deadline(10), warnings.catch_warnings():
             warnings.simplefilter('ignore')
-            fn(*args, **kwargs)
+            return fn(*args, **kwargs)
     except DidNotReturn:
         # not a verdict (the call is outside what the property speaks about); do not spend the run on it
         _UNJUDGED_HUNG.add(key)
